@@ -46,6 +46,9 @@ type Params struct {
 	DelSingle bool   `json:"delsingle"` // also delete only one of the two clock files
 	MaxIdent  int    `json:"maxident"`  // at most this many identity mutations per path (0 = unbounded)
 	MaxNew    int    `json:"maxnew"`    // at most this many new bugs per path (0 = unbounded)
+	// MergeHead: the pre-fetched remote head of the shared bug is a merge commit written by the
+	// OTHER replica (it merged an edit of ours with its own work), carrying the largest edit time.
+	MergeHead bool `json:"mergehead"`
 }
 
 func (p Params) String() string { b, _ := json.Marshal(p); return string(b) }
@@ -166,8 +169,30 @@ func (m *model) buildDisk(dir string, names []string) error {
 	if err := bug.Pull(b, resolvers(b), remoteName, ub); err != nil {
 		return err
 	}
+	if m.p.MergeHead {
+		// A edits the shared bug and publishes it before B works: B will have to merge
+		vctl.SetActor("setup/A")
+		ab, err := bug.Read(a, m.bug0)
+		if err != nil {
+			return err
+		}
+		ab.Append(bug.NewAddCommentOp(ua, vtime.Now().Unix(), "local comment published before the remote worked", nil))
+		if err := ab.Commit(a); err != nil {
+			return err
+		}
+		if _, err := bug.Push(a, remoteName); err != nil {
+			return err
+		}
+		vctl.SetActor("setup/B")
+	}
 	if err := remoteWork(b, ub, m.bug0); err != nil {
 		return err
+	}
+	if m.p.MergeHead {
+		// B merges A's published edit with its own commits: the head it pushes is B's merge commit
+		if err := bug.Pull(b, resolvers(b), remoteName, ub); err != nil {
+			return err
+		}
 	}
 	if _, err := bug.Push(b, remoteName); err != nil {
 		return err
